@@ -299,6 +299,16 @@ def directed():
         c = mk_case(lens_, "int32", [(i * 7) % 50 for i in range(sum(lens_))], "getcol", jmax, "fresh", "small")
         c["jtype"] = jt_
         yield c
+    # complex elements with one infinite or undefined part in a single cell (no opposite infinity in the same column): only that part of that column's total is affected
+    for dtype_ in ("complex128", "complex64"):
+        for lens_ in ([2, 0, 3, 1], [3, 3], [1, 4, 2]):
+            tot_ = sum(lens_)
+            for bad_ in (complex(2.5, float("inf")), complex(float("inf"), 1.0), complex(float("nan"), 2.0), complex(1.0, float("nan"))):
+                for pos_ in (0, tot_ - 1, tot_ // 2):
+                    vals_ = [complex(1 + (i * 3) % 5, (i * 2) % 3) for i in range(tot_)]
+                    vals_[pos_] = bad_
+                    for op_ in ("sum0", "mean0", "np.sum0"):
+                        yield mk_case(lens_, dtype_, vals_, op_, 0, "fresh", "small")
     # complex and extended-precision elements
     for dtype_ in gen.DT_EXOTIC:
         for lens_ in ([2, 0, 3, 1], [4], [1, 5, 0, 2]):
